@@ -54,13 +54,18 @@ Mutation self-test (2026-09-22): `Clients::disconnect(.., Some(id))` finds the c
 calls `start_shutdown()` -> VIOLATION kind=revoked_still_served window=registered by=id (a different
 signature than the known finding, which is still reported as KNOWN-FINDING); undone -> exit 0.
 
-Independent breaking changes (2026-09-22, `bin/seedtest`, scratch worktree, shared /repo untouched):
-seeded/_incoming/C08/patch.diff (`disconnect(endpoint, None)` stops after the first connection) ->
-VIOLATION revoked_still_served window=registered by=key in family (b); patch2.diff (`try_get`, a
-locked entry is treated as absent) -> VIOLATION revoked_still_served window=registered by=id
-lock_held_at_call=True in family (c) (the call returns false before the lock is released).  Neither
-matches the known finding.  Before families (b), (c) and the register-lock hook existed both passed
-the quick tier.
+Independent breaking changes (2026-09-22, `bin/seedtest C08 <patch> 8`, scratch git worktree with
+VERIF_REPO and its own target dir; the shared /repo was not touched):
+  seeded/_incoming/C08/patch.diff  (`disconnect(endpoint, None)` stops after the first connection):
+    exit 1, VIOLATION revoked_still_served window=registered by=key in the duplicates family, e.g.
+    `... register(t3) admit(b) register(b) disc_key(A)`: t2 and t3 still answer pings;
+  seeded/_incoming/C08/patch2.diff (`try_get`: a locked entry is treated like an absent endpoint):
+    exit 1, VIOLATION revoked_still_served window=registered lock_held_at_call=True (by id and by
+    endpoint) in the register-lock family, e.g. `... admit(t2) reg_lock(t2) disc_id_call(t)
+    reg_unlock(t2) disc_id_ret(t) ...`: the call returned false while the lock was held, t stays served.
+Neither signature matches the known finding (it is still printed as KNOWN-FINDING); unchanged tree:
+exit 0 with only the KNOWN-FINDING line (74 words, 24 known-finding hits).  Before the duplicates and
+register-lock families and the hook relay.register.locked existed both changes passed the quick tier.
 """
 import json
 
